@@ -28,6 +28,7 @@ func main() {
 		binPlain = flag.String("bin", "", "plain worker binary")
 		binRace  = flag.String("binrace", "", "race worker binary")
 		list     = flag.Bool("list", false, "list registered checks")
+		repo     = flag.String("repo", "/repo", "directory spine-go is compiled from")
 	)
 	flag.Parse()
 	if *list {
@@ -48,5 +49,5 @@ func main() {
 		os.Exit(rig.WorkerMain(*prop, *part, rig.Tier(*tier), *seed, *from, *to, *out, *race))
 	}
 	os.Exit(rig.ParentMain(rig.Options{Prop: *prop, Tier: rig.Tier(*tier), Seed: *seed, VerifDir: *verifDir,
-		BinPlain: *binPlain, BinRace: *binRace, OnlyPart: *part}))
+		BinPlain: *binPlain, BinRace: *binRace, OnlyPart: *part, RepoRoot: *repo}))
 }
